@@ -47,7 +47,10 @@ InitM == [ lst   |-> EmptyFn,          \* listing: line number -> normalised sta
            stale |-> FALSE,            \* TRUE: an edit discarded frames; how the interpreter
                                        \* disposes of them is its own business until the next
                                        \* reset -- only that they can never be resumed is specified
-           inp   |-> NoCont,           \* the INPUT statement waiting for a reply
+           inp   |-> NoCont,           \* the INPUT statement waiting for a reply (or whose reply is being assigned)
+           flds  |-> <<>>,             \* the fields of the reply being assigned
+           lcur  |-> -1,               \* LIST in progress: the next line number to show (-1: none)
+           contl |-> -1,               \* ... of an interrupted LIST that CONT resumes
            resp  |-> <<>>,
            why   |-> "" ]
 
@@ -187,25 +190,11 @@ SplitFields(s, i, cur, inq) ==
 \* ---- statements ----------------------------------------------------------
 TextOf(v) == IF IsStr(v) THEN v.s ELSE NumText(v) \o <<32>>
 
-\* the reply to INPUT: fields, left to right; the first unacceptable field -> REDO FROM START
-RECURSIVE AssignFields(_, _, _, _)
-AssignFields(m, vs, fields, i) ==
-  IF i > Len(vs) THEN [ok |-> TRUE, m |-> m]
-  ELSE LET f == Trim(fields[i])
-           isstr == vs[i].sfx = "$"
-           val == IF isstr THEN MkStr(Unquote(f)) ELSE ParseField(f)
-       IN  IF IsUnk(val) THEN [ok |-> FALSE, m |-> OutOfModel(m, "reply")]
-           \* the target's subscripts are evaluated before the field is converted (an array
-           \* may get its default dimensions even though the field is then refused)
-           ELSE IF IsErr(val) THEN
-                  [ok |-> FALSE,
-                   m |-> IF vs[i].k = "arr"
-                         THEN [m EXCEPT !.dims = Store(m, vs[i], Default(TypeOfName(vs[i].l, vs[i].sfx, m.deft))).m.dims]
-                         ELSE m]
-           ELSE LET r == Store(m, vs[i], val) IN
-                IF ~r.ok THEN (IF IsUnk(r.v) THEN [ok |-> FALSE, m |-> OutOfModel(r.m, "reply")]
-                               ELSE [ok |-> FALSE, m |-> r.m])
-                ELSE AssignFields(r.m, vs, fields, i + 1)
+\* INPUT's REDO FROM START: the error, the same prompt again, waiting at the same statement
+Redo(m) ==
+  LET s == StmtAt(CodeOf(m, m.inp.ln), m.inp.path) IN
+  [Item(Item(m, [k |-> "err", errs |-> {[code |-> ERedo, ln |-> -1]}]),
+        [k |-> "input", s |-> s.prompt \o <<63, 32>>, caps |-> s.caps]) EXCEPT !.mode = "input", !.col = 0, !.flds = <<>>]
 
 Exec(m, p, s) ==
   LET next == [m EXCEPT !.pc = Adv(p)] IN
@@ -370,6 +359,23 @@ Exec(m, p, s) ==
          \* prompt, then wait; column returns to 0
          [Item(m, [k |-> "input", s |-> s.prompt \o <<63, 32>>, caps |-> s.caps])
             EXCEPT !.mode = "input", !.inp = p, !.col = 0]
+    [] s.k = "infield" ->
+         \* one field of the reply: blanks trimmed, quotes removed for a string variable, a numeric
+         \* field converted like a literal; the first unacceptable field -> REDO FROM START.
+         \* The target's subscripts are evaluated before the field is converted (an array may
+         \* get its default dimensions even though the field is then refused).
+         IF s.i > Len(m.flds) THEN OutOfModel(m, "field without a reply")
+         ELSE LET f == Trim(m.flds[s.i])
+                  val == IF s.v.sfx = "$" THEN MkStr(Unquote(f)) ELSE ParseField(f)
+                  done == s.i = s.n IN
+              IF IsUnk(val) THEN OutOfModel(m, "reply")
+              ELSE IF IsErr(val) THEN
+                   Redo(IF s.v.k = "arr"
+                        THEN [m EXCEPT !.dims = Store(m, s.v, Default(TypeOfName(s.v.l, s.v.sfx, m.deft))).m.dims]
+                        ELSE m)
+              ELSE LET r == Store(m, s.v, val) IN
+                   IF ~r.ok THEN (IF IsUnk(r.v) THEN OutOfModel(r.m, "reply") ELSE Redo(r.m))
+                   ELSE [r.m EXCEPT !.pc = Adv(p), !.inp = IF done THEN NoCont ELSE @, !.flds = IF done THEN <<>> ELSE @]
     [] s.k = "clear" -> [Cleared(m) EXCEPT !.pc = Adv(p)]
     [] s.k = "run" ->
          LET m1 == Cleared(m) IN
@@ -377,7 +383,7 @@ Exec(m, p, s) ==
     [] s.k = "cont" ->
          IF m.contx THEN OutOfModel(m, "cont after error")
          ELSE IF m.cont = NoCont \/ InProgram(p) THEN Fail(m, p, Err(ECantContinue))
-         ELSE [m EXCEPT !.pc = m.cont, !.cont = NoCont]
+         ELSE [m EXCEPT !.pc = m.cont, !.cont = NoCont, !.lcur = m.contl, !.contl = -1]
     [] s.k = "tron" -> [m EXCEPT !.tron = TRUE, !.ltr = p.ln, !.pc = Adv(p)]
     [] s.k = "troff" -> [m EXCEPT !.tron = FALSE, !.pc = Adv(p)]
     [] s.k = "new" -> GoReady([Edited(Cleared(m), EmptyFn, EmptyFn) EXCEPT !.tron = FALSE])
@@ -390,14 +396,13 @@ Exec(m, p, s) ==
               ELSE GoReady(Edited(m, [n \in keep |-> m.lst[n]], [n \in keep |-> m.src[n]]))
     [] s.k = "list" /\ (s.a > MaxLine \/ s.b > MaxLine \/ s.a > s.b) -> Fail(m, p, Err(AnyErr))
     [] s.k = "list" ->
-         LET rng == {n \in DOMAIN m.lst : n >= s.a /\ n <= s.b}
-             RECURSIVE Lst(_, _)
-             Lst(mm, from) == LET c == {n \in rng : n >= from} IN
-                              IF c = {} THEN mm
-                              ELSE LET n == CHOOSE n \in c : \A y \in c : n <= y IN
-                                   Lst(Item(mm, [k |-> "list", ln |-> n, text |-> ShowLine(n, m.src[n]),
-                                                 cols |-> {<<e.c0, e.c1>> : e \in {x \in m.perr : x.ln = n}}]), n + 1)
-         IN  [Lst(m, 0) EXCEPT !.pc = Adv(p)]
+         \* one line per step (LIST can be interrupted and continued); lcur: the next number
+         LET from == IF m.lcur < 0 THEN s.a ELSE m.lcur
+             c == {n \in DOMAIN m.lst : n >= from /\ n <= s.b} IN
+         IF c = {} THEN [m EXCEPT !.lcur = -1, !.pc = Adv(p)]
+         ELSE LET n == CHOOSE n \in c : \A y \in c : n <= y IN
+              [Item(m, [k |-> "list", ln |-> n, text |-> ShowLine(n, m.src[n]),
+                        cols |-> {<<e.c0, e.c1>> : e \in {x \in m.perr : x.ln = n}}]) EXCEPT !.lcur = n + 1]
     [] s.k = "renum" ->
          IF InProgram(p) THEN Fail(m, p, Err(EIllegalDirect))
          \* a program with compile-time errors is not renumbered: they are reported instead
@@ -468,23 +473,18 @@ EnterDirect(m, stmts) ==
       a == Analyze(flat, DOMAIN m.lst, [x \in {Direct} |-> stmts])
       derr == IF a.perr = {} /\ a.hasdata THEN {[code |-> EIllegalDirect, ln |-> -1]}
               ELSE {[code |-> e.code, ln |-> -1, c0 |-> e.c0, c1 |-> e.c1] : e \in a.perr}
-      m0 == [m EXCEPT !.resp = <<>>, !.dir = code, !.dirsrc = stmts, !.dpairs = a.pairs, !.ltr = -1, !.dgen = @ + 1] IN
+      m0 == [m EXCEPT !.resp = <<>>, !.dir = code, !.dirsrc = stmts, !.dpairs = a.pairs, !.ltr = -1, !.dgen = @ + 1, !.lcur = -1] IN
   IF derr # {} THEN GoReady(Item(FreshLine(m0), [k |-> "err", errs |-> derr]))
   ELSE [m0 EXCEPT !.mode = "run", !.pc = LineStart(Direct)]
 
-\* the reply to a pending INPUT
+\* the reply to a pending INPUT: over-long or the wrong number of fields -> REDO FROM START;
+\* else the fields are assigned one by one (steps "infield")
 Reply(m, text) ==
   LET m0 == [m EXCEPT !.resp = <<>>, !.col = 0]
       s == StmtAt(CodeOf(m, m.inp.ln), m.inp.path)
-      redo == [Item(Item(m0, [k |-> "err", errs |-> {[code |-> ERedo, ln |-> -1]}]),
-                    [k |-> "input", s |-> s.prompt \o <<63, 32>>, caps |-> s.caps]) EXCEPT !.mode = "input"]
       fields == IF Len(s.vs) <= 1 THEN <<text>> ELSE SplitFields(text, 1, <<>>, FALSE) IN
-  IF Len(text) > 1024 THEN redo
-  ELSE IF Len(fields) # Len(s.vs) THEN redo
-  ELSE LET r == AssignFields(m0, s.vs, fields, 1) IN
-       IF r.m.mode = "oom" THEN r.m
-       ELSE IF ~r.ok THEN [redo EXCEPT !.vars = r.m.vars, !.dims = r.m.dims]
-       ELSE [r.m EXCEPT !.mode = "run", !.pc = Adv(m.inp), !.inp = NoCont]
+  IF Len(text) > 1024 \/ Len(fields) # Len(s.vs) THEN Redo(m0)
+  ELSE [m0 EXCEPT !.mode = "run", !.pc = Adv(m.inp), !.flds = fields]
 
 \* interrupt (CTRL-C) of a running program: BREAK, continuable; of a direct line: everything
 \* pending is abandoned
@@ -495,7 +495,7 @@ Interrupt(m) ==
   IF m.mode = "input" THEN
      (IF InProgram(m.inp) THEN GoReady([m1 EXCEPT !.cont = m.inp, !.contx = FALSE, !.inp = NoCont])
       ELSE GoReady([m1 EXCEPT !.cont = NoCont, !.contx = FALSE, !.ctl = <<>>, !.nslots = 0, !.inp = NoCont, !.stale = FALSE]))
-  ELSE IF inprog THEN GoReady([m1 EXCEPT !.cont = p, !.contx = FALSE])
+  ELSE IF inprog THEN GoReady([m1 EXCEPT !.cont = p, !.contx = FALSE, !.contl = m.lcur, !.lcur = -1])
   ELSE GoReady([m1 EXCEPT !.cont = NoCont, !.contx = FALSE, !.ctl = <<>>, !.nslots = 0, !.stale = FALSE])
 
 \* deliver one user action
